@@ -241,7 +241,30 @@ func encodeRequest(sc *Scenario) (*encodedRequest, error) {
 	return enc, nil
 }
 
+func applyOverride(hdr []KV, ov []KV) []KV {
+	for _, o := range ov {
+		var out []KV
+		for _, kv := range hdr {
+			if !strings.EqualFold(kv.K, o.K) {
+				out = append(out, kv)
+			}
+		}
+		if o.V != "" {
+			out = append(out, o)
+		}
+		hdr = out
+	}
+	return hdr
+}
+
 func (enc *encodedRequest) finish(sc *Scenario) {
+	enc.Header = applyOverride(enc.Header, sc.Client.Override)
+	if sc.Client.TargetOverride != "" {
+		enc.Target = sc.Client.TargetOverride
+	}
+	if sc.Client.MethodOverride != "" {
+		enc.Method = sc.Client.MethodOverride
+	}
 	enc.DeclaredCL = -1
 	if sc.Client.DeclareCL && enc.Body != nil {
 		enc.DeclaredCL = int64(len(enc.Body))
